@@ -91,7 +91,8 @@ def run(ctx):
                     sample.append({"path": c["path"], "impure_calls": [f for f in c["fan"] if f["impure"]][:2]})
         code = vlib.run_tlc(ctx, "MC_FontCache", cfg, "mc_code", workers=4, timeout=2400, sink=sink)
         # img once more with all 16 filters (raw relations between filters that the font's tables do not tell apart)
-        code2 = vlib.run_tlc(ctx, "MC_FontCache", "MC_FontCache_code_imgall.cfg", "mc_code_imgall", workers=4, timeout=1500, sink=sink)
+        code2 = vlib.run_tlc(ctx, "MC_FontCache", "MC_FontCache_code_imgall.cfg" if ctx.quick else "MC_FontCache_code_imgall_thorough.cfg",
+                             "mc_code_imgall", workers=4, timeout=1500, sink=sink)
     ctx.note("MC_FontCache[code keys]: %d + %d states, %d cases, %d (state, call) pairs predicted impure (%.1fs + %.1fs)"
              % (code.distinct, code2.distinct, n_cases[0], n_pred[0], code.wall, code2.wall))
     # vacuity of the new defect classes: with a class switched on, TLC must predict impure histories
@@ -266,7 +267,8 @@ def run(ctx):
             what = "pure operation %s on %s gave different bytes on repeated runs" % (m["call"]["op"], m["call"]["font"])
         else:
             key = "unpredicted|%s" % m["call"]["op"]
-            what = "%s differs from a fresh font and the cache model has no stale read (case %s)" % (vlib.short(m["call"], 160), m["case"])
+            what = "%s differs from a fresh %s and the cache model has no stale read (case %s)" % (
+                vlib.short(m["call"], 160), "ReadCache" if m["call"]["op"] == "ReadCached" else "font", m["case"])
         violations.append(Violation(key, what, m))
     known = vlib.load_known(ctx.prop)
     if deferred and not [v for v in violations if v.key not in known]:
